@@ -74,7 +74,7 @@ Definition run_eval (c : config) (ops : list bop) (rootref : N) (sl : seeds)
   let orc := orc_of tbl ccost in
   (map rnode a, idl, root,
    (rb (has_negation a root), rb (has_exclusive sl a root), rb (wf a)),
-   rq exact,
+   (rq exact, rq (ProbX_node sl a root), p_constraints (compile_plan sl a root)),
    map (fun spec => rresult (evaluate_with exact KF FUEL c a sl root (clk_of spec) orc)) clocks,
    map (fun l => rresult (evaluate_with exact KF FUEL c a sl root (clk_list l) orc)) lists).
 
